@@ -920,8 +920,9 @@ def check_C12(rep):
     FX.run_replay(rep, "D10", fixed=True)
     FX.run_replay(rep, "D10", fixed=True, cxx="clang++", flags="-fsanitize=undefined -fno-sanitize-recover=all")   # limits swept around the need: an overflow by one is an out-of-bounds index
     FX.run_fixed(rep, "cstring_stack.cpp", "clang++", "-fsanitize=undefined -fno-sanitize-recover=all", "fixed-stack-capacity-insufficient-or-overflowed")
+    known_D8(rep)          # the stack capacity formula is insufficient with empty reductions (D8) and with recovery tokens (D16): recorded findings
     rep.cov["distinct_nontrivial"] = len(nontriv)
-    rep.cov["rule"] = "every accepted pattern of the H2 families: dfa_size_analyzer prediction vs states actually created by the real dfa_builder (nested and large repetition counts included); carrier C (custom limits 24 states / 60 items per state) vs carrier A (default limits) on the same grammars: loud failure or identical table; default limits never overflow. Non-trivial = distinct pattern with a repetition count, or grammar whose construction hits a custom limit. The cstring_buffer stack capacity N+EmptyRulesCount+1 is known finding D8 (H3 replay)."
+    rep.cov["rule"] = "every accepted pattern of the H2 families: dfa_size_analyzer prediction vs states actually created by the real dfa_builder (nested and large repetition counts included); carrier C (custom limits 24 states / 60 items per state) vs carrier A (default limits) on the same grammars: loud failure or identical table; default limits never overflow. Non-trivial = distinct pattern with a repetition count, or grammar whose construction hits a custom limit. The cstring_buffer stack capacity N+EmptyRulesCount+1: cstring_stack.cpp (grammars without empty rules and recovery: never throws, as proved) and the replays of the known findings D8 / D16."
     rep.cov["samples"] = samples
     return rep
 
